@@ -82,6 +82,24 @@ func main() {
 		return
 	}
 	meta := registry[*prop]
+	if meta == nil && experiments[*prop] != nil {
+		// calibration run of a rule that is not (yet) attached to any property: prints its obligations, writes no evidence
+		meta = &propMeta{ID: *prop, Run: experiments[*prop]}
+		rep, _, err := analyse(meta, LoadConfig{Root: *repo})
+		if err != nil {
+			fmt.Fprintln(os.Stderr, err)
+			os.Exit(2)
+		}
+		n := 0
+		for _, o := range rep.Obls {
+			if o.Status != "discharged" {
+				n++
+				fmt.Printf("%s %s %s\n    %s\n", o.Status, o.Key, o.Pos, o.Detail)
+			}
+		}
+		fmt.Printf("%s: %d obligations, %d not discharged\n", *prop, len(rep.Obls), n)
+		return
+	}
 	if meta == nil {
 		fmt.Fprintf(os.Stderr, "unknown property %q\n", *prop)
 		os.Exit(2)
